@@ -9,9 +9,10 @@ RULES = {
     'C07.R2': 'operand order: left operand first through forwarding, composition (operand tree = rhs, rewritten tree = self; context ∘ original) and the mixed affine forms (enforced for Sub/Div, free for the commutative Add/Mul)',
     'C07.R3': 'decisions are copied unchanged by the four arithmetic schemas; unary operators touch every terminal and only terminals',
     'C07.R5': 'definedness under on-the-fly pruning (shared with C03): the composition removes a grafted branch only on a false explore(), never the last branch of a decision, and is_edge_feasible says false only on an Infeasible answer',
+    'C07.R6': 'graft structure of the composition every binary operator runs (shared with C02.R1/R2): operand edges copied with their own labels, copies paired with the edge targets, schema role by the operand node\'s leaf flag',
     'C07.R4': 'AffFunc operators are element-wise on both fields with the impl\'s own operator, left operand first; Neg negates both fields',
 }
-FLOORS = {'C07.R1': 33, 'C07.R3': 6, 'C07.R4': 17, 'C07.R2': 4, 'C07.R5': 7}
+FLOORS = {'C07.R1': 33, 'C07.R3': 6, 'C07.R4': 17, 'C07.R2': 4, 'C07.R5': 7, 'C07.R6': 8}
 EXPLANATION = ('Sibling agreement over 4 operators x 8 ownership forms (+Neg) and the element-wise kernels; with C02.R1 (graft structure) the result is defined exactly '
                'when both operands are and its terminal is context.op(original), i.e. left.op(right).')
 DOES_NOT_DECIDE = 'nothing value-level beyond exact arithmetic; pruning on the fly is covered by C03'
@@ -182,6 +183,17 @@ def run(ctx):
     prune.check_root_edges_kept(sub, 'C07.R5')
     for i in sub.insts:
         if i.site.startswith('AffTree::generic_composition_inplace#') or i.site.startswith('AffTree::is_edge_feasible#'):
+            ctx.insts.append(i)
+    # ---- R6: the graft itself (every operand edge copied with its own label under the current copy, paired with its target; schema role by
+    # the operand node's leaf flag): decided under C02.R1/R2, and a clause of C07 because every binary tree operator is this composition
+    from . import c02
+    sub = Ctx(ctx.facts, ctx.tier, ctx.prop)
+    g2 = sub.body('C02.R1', 'AffTree::generic_composition_inplace')
+    if g2 is not None:
+        c02.graft(sub, ctx.facts, g2)
+    for i in sub.insts:
+        if i.rule in ('C02.R1', 'C02.R2'):
+            i.rule = 'C07.R6'
             ctx.insts.append(i)
     # ---- R2: composition passes (operand node, rewritten tree\'s terminal) to the schema
     g = ctx.body('C07.R2', 'AffTree::generic_composition_inplace')
